@@ -1,11 +1,13 @@
 #!/usr/bin/env python3
-"""Confirm sub-agent seeds myself and import them: tools/confirm_seed.py C20 [C16 ...]
-For every /tmp/wt/<ID>/_seeded/<k>/: in the scratch worktree (never /repo): clean tree -> demo must exit 0; apply patch -> demo must exit != 0;
+"""Confirm sub-agent seeds myself and import them: [SEED_ROOT=/tmp/w2 SEED_OFFSET=3] tools/confirm_seed.py C20 [C16 ...]
+For every $SEED_ROOT/<ID>/_seeded/<k>/ (k numeric; stored as <ID>-<k+SEED_OFFSET>): in the scratch worktree (never /repo): clean tree -> demo must exit 0; apply patch -> demo must exit != 0;
 pinned test command -> every BASELINE stable_pass test still passes; revert. Confirmed seeds are copied to /verif/seeded/<ID>-<k>/."""
 import json, os, shutil, subprocess, sys, tempfile, xml.etree.ElementTree as ET
 
 BASE = set(json.load(open('/root/.vp/BASELINE.json'))['stable_pass'])
 PY = '/venv/bin/python'
+ROOT = os.environ.get('SEED_ROOT', '/tmp/wt')
+OFFSET = int(os.environ.get('SEED_OFFSET', '0'))
 
 def sh(cmd, cwd, env=None, timeout=1800):
     e = dict(os.environ); e.update(env or {})
@@ -26,13 +28,13 @@ def suite(wt):
     return sorted(BASE - passed)
 
 for pid in sys.argv[1:]:
-    wt = '/tmp/wt/' + pid
+    wt = ROOT + '/' + pid
     sd = os.path.join(wt, '_seeded')
     for k in sorted(os.listdir(sd)):
         d = os.path.join(sd, k)
-        if not os.path.isfile(os.path.join(d, 'patch.diff')):
+        if not k.isdigit() or not os.path.isfile(os.path.join(d, 'patch.diff')):
             continue
-        dst = '/verif/seeded/%s-%s' % (pid, k)
+        dst = '/verif/seeded/%s-%d' % (pid, int(k) + OFFSET)
         if os.path.exists(dst):
             continue
         sh(['git', 'checkout', '--', '.'], wt)
@@ -57,6 +59,8 @@ for pid in sys.argv[1:]:
         except Exception:
             meta = {}
         meta['property'] = pid
+        meta['wave'] = 1 if OFFSET == 0 else 2
+        meta['base_commit'] = sh(['git', 'rev-parse', 'HEAD'], wt).stdout.strip()
         meta['confirmed_by_me'] = {'worktree': wt, 'demo_exit_clean_tree': rc0, 'demo_exit_with_patch': rc1, 'demo_exit_after_revert': rc2,
                                    'pinned_suite': 'all %d BASELINE stable_pass tests still pass with the patch applied' % len(BASE),
                                    'commands': ['git apply patch.diff', 'PYTHONPATH=<wt> /venv/bin/python -B demo.py',
